@@ -828,6 +828,81 @@ def r167(prog, chk, rule="R16.7"):
                     chk.ob(rule, f"{fi.short}|{A.keytext(fi.node, node)}", False, where(fi, node),
                            message=f"{fi.short}: `{T(node, 60)}` modifies in place ({what}) the value getAttrWithFallback returned, i.e. the font info's own "
                                    f"attribute or the shared default: explicit values are altered for this and every later compile")
+    # ... nor by a package function it is handed to (one level of helpers, two at most)
+    def param_mutation(callee: FuncInfo, pname: str, depth=0):
+        """a statement of `callee` that changes its parameter `pname` in place, or None"""
+        if isinstance(callee.node, ast.Lambda):
+            return None
+        for node in A.body_nodes(callee.node):
+            use = None
+            if isinstance(node, ast.Call) and isinstance(node.func, ast.Attribute) and node.func.attr in _MUT and isinstance(node.func.value, ast.Name) and node.func.value.id == pname:
+                use = node.func.value
+            elif isinstance(node, (ast.Assign, ast.Delete)):
+                for t in node.targets:
+                    if isinstance(t, ast.Subscript) and isinstance(t.value, ast.Name) and t.value.id == pname:
+                        use = t.value
+            elif isinstance(node, ast.AugAssign) and isinstance(node.target, ast.Name) and node.target.id == pname and isinstance(node.value, (ast.List, ast.ListComp, ast.Set, ast.Name, ast.Call)) \
+                    and isinstance(node.op, (ast.Add, ast.BitOr)):
+                ds = prog.cfg(callee).reaching_defs(pname, node)
+                if ds and all(d.kind == "param" for d in ds):
+                    return node
+            if use is not None:
+                ds = prog.reaching(callee, pname, use)
+                if ds and all(d.kind == "param" for d in ds):
+                    return node
+            if depth < 1 and isinstance(node, ast.Call):
+                hit = handed_on(callee, node, lambda a: isinstance(a, ast.Name) and a.id == pname and all(d.kind == "param" for d in prog.reaching(callee, pname, a)), depth + 1)
+                if hit is not None:
+                    return hit[1]
+        return None
+
+    def handed_on(fi, call, is_value, depth=0):
+        """(callee, mutating statement) when `call` passes a tracked value to a package function that changes it in place"""
+        try:
+            ts, how = prog.resolve_callee(fi, call.func)
+        except Exception:
+            return None
+        if how != "exact" or len(ts) != 1 or not isinstance(ts[0], FuncInfo) or isinstance(ts[0].node, ast.Lambda):
+            return None
+        t = ts[0]
+        ps = t.params()
+        if t.cls is not None and not t.is_static and isinstance(call.func, ast.Attribute):
+            ps = ps[1:]
+        for i, a in enumerate(call.args):
+            if i < len(ps) and is_value(a):
+                m = param_mutation(t, ps[i], depth)
+                if m is not None:
+                    return t, m
+        for k in call.keywords:
+            if k.arg in ps and is_value(k.value):
+                m = param_mutation(t, k.arg, depth)
+                if m is not None:
+                    return t, m
+        return None
+
+    for fi in ix.functions.values():
+        if isinstance(fi.node, ast.Lambda):
+            continue
+        calls = [c for c in A.body_nodes(fi.node) if isinstance(c, ast.Call) and prog.is_call_to(fi, c, "ufo2ft.fontInfoData.getAttrWithFallback")]
+        if not calls:
+            continue
+        direct_defs = [st for st in A.stmts_of(fi.node) if isinstance(st, ast.Assign) and st.value in calls]
+
+        def is_value(a):
+            if a in calls:
+                return True
+            if isinstance(a, ast.Name):
+                ds = prog.reaching(fi, a.id, a)
+                return bool(ds) and any(d.binder in direct_defs for d in ds)
+            return False
+        for c in A.body_nodes(fi.node):
+            if isinstance(c, ast.Call) and c not in calls and (c.args or c.keywords):
+                hit = handed_on(fi, c, is_value)
+                if hit is not None:
+                    n += 1
+                    chk.ob(rule, f"{fi.short}|{A.keytext(fi.node, c)}|handed to a helper that changes it in place", False, where(fi, c),
+                           message=f"{fi.short} hands the value getAttrWithFallback returned to {hit[0].short}, which modifies it in place (`{T(hit[1], 50)}`): that value is the "
+                                   f"font info's own attribute (or the shared default), so the caller's source is altered for this and every later compile")
     chk.minimum(rule, 100)
 
 
@@ -1182,6 +1257,9 @@ def r1613(prog, chk):
 
 
 MUTANTS = [
+    M("blue zones sorted in place inside a helper of the BlueScale fallback (seeded C07j)", "ufo2ft/fontInfoData.py", "postscriptBlueScaleFallback",
+      "blues = getAttrWithFallback(info, 'postscriptBlueValues')", "blues = getAttrWithFallback(info, 'postscriptBlueValues')\n_orderZones(blues)", rule="R16.7",
+      also=(("ufo2ft/fontInfoData.py", "", "<append-module>", "def _orderZones(zones):\n    if zones:\n        zones.sort()\n"),)),
     M("superscript size falls back to the constant default instead of the resolved subscript size (seeded C16k)", "ufo2ft/outlineCompiler.py", "BaseOutlineCompiler.setupTable_OS2",
       "v = os2.ySubscriptXSize", "v = unitsPerEm * 0.65", rule="R16.13"),
     M("subscript x offset derived from the default y offset", "ufo2ft/outlineCompiler.py", "BaseOutlineCompiler.setupTable_OS2",
